@@ -27,6 +27,7 @@ void operator delete(void *p, std::size_t) noexcept { std::free(p); }
 void operator delete[](void *p, std::size_t) noexcept { std::free(p); }
 
 #include <vrec.hpp>
+#include <omp.h>
 #include <amgcl/make_solver.hpp>
 #include <amgcl/amg.hpp>
 #include <amgcl/adapter/crs_tuple.hpp>
@@ -57,6 +58,23 @@ static std::vector<std::pair<std::string, std::shared_ptr<crsd>>> matrices() {
       v.push_back({"positive_offdiag4", vr::from_rows(4, 4, r)}); }
     { rows_t r(5); r[0] = {{0, 4.0}, {1, -1.0}, {2, 1.0}}; r[1] = {{0, -1.0}, {1, 4.0}, {3, -1.0}}; r[2] = {{0, 1.0}, {2, 4.0}, {4, 1.0}}; r[3] = {{1, -1.0}, {3, 4.0}, {4, -1.0}}; r[4] = {{2, 1.0}, {3, -1.0}, {4, 4.0}};
       v.push_back({"mixed_sign5", vr::from_rows(5, 5, r)}); }
+    { // two hubs K(2,6): every leaf depends strongly on both hubs, no coupling between the hubs
+      int m = 6; rows_t r(m + 2);
+      for (int i = 0; i < m; ++i) r[i] = {{i, 3.0}, {m, -1.0}, {m + 1, -1.0}};
+      for (int h = m; h < m + 2; ++h) { for (int i = 0; i < m; ++i) r[h].push_back({i, -1.0}); r[h].push_back({h, m + 1.0}); }
+      v.push_back({"two_hubs8", vr::from_rows(m + 2, m + 2, r)}); }
+    { // one-directional couplings (structurally non-symmetric strength graph: aggregates can vanish)
+      int m = 12; rows_t r(m); double o = -0.4;
+      for (int i = 0; i < m; ++i) r[i].push_back({i, 1.0});
+      auto add = [&](int i, int j) { r[i].push_back({j, o}); };
+      add(0, 1); add(1, 0); add(2, 0); add(2, 1); add(3, 4); add(4, 3); add(5, 6); add(6, 5); add(7, 8); add(8, 7); add(9, 10); add(10, 9); add(10, 11); add(11, 10);
+      for (auto &x : r) std::sort(x.begin(), x.end());
+      v.push_back({"oneway12", vr::from_rows(m, m, r)}); }
+    { // random structurally non-symmetric, row-dominant
+      vr::rng g(4242); auto A = vr::random_int(g, 20, 20, 0.15, 1, false, true);
+      for (size_t i = 0; i < A->nrows; ++i) { double s = 0; for (ptrdiff_t p = A->ptr[i]; p < A->ptr[i+1]; ++p) if (A->col[p] != (ptrdiff_t)i) { A->val[p] = -std::fabs(A->val[p]); s += 1; }
+        for (ptrdiff_t p = A->ptr[i]; p < A->ptr[i+1]; ++p) if (A->col[p] == (ptrdiff_t)i) A->val[p] = s + 1; }
+      v.push_back({"nonsym20", A}); }
     v.push_back({"poisson8x7", vr::poisson2d(8, 7)});
     v.push_back({"poisson30x1", vr::poisson2d(30, 1)});
     return v;
@@ -89,6 +107,24 @@ static outcome run_once(const crsd &A, const cfg &c, const vec &f) {
 }
 static vr::digest dig(const outcome &o) { vr::digest d; d.pod(o.cls); d.pod(o.it); d.pod(o.res); d.vec(o.x.data(), o.x.size()); d.bytes(o.what.data(), o.what.size()); return d; }
 
+// leave a pattern in the stack region the next calls will use
+static void __attribute__((noinline)) dirty_stack(int pattern) {
+    volatile unsigned char buf[192 * 1024];
+    for (size_t i = 0; i < sizeof(buf); ++i) buf[i] = (unsigned char)(pattern == 3 ? (i * 131 + 7) : pattern == 0 ? 0x00 : pattern == 1 ? 0x7F : 0xFF);
+    asm volatile("" ::: "memory");
+}
+// the library called from inside the caller's own parallel region (nesting is off): every amgcl
+// parallel region then runs with a team of one although omp_get_max_threads() is larger
+static outcome run_nested(const crsd &A, const cfg &c, const vec &f, int pattern) {
+    outcome o;
+#pragma omp parallel num_threads(2)
+    {
+#pragma omp master
+        { dirty_stack(pattern); o = run_once(A, c, f); }
+    }
+    return o;
+}
+
 static void dirty_heap(vr::rng &g) {      // leave garbage in freed blocks of many sizes
     int keep = g_fill_mode; g_fill_mode = 3;
     std::vector<char*> blocks; for (int k = 0; k < 400; ++k) blocks.push_back(new char[8 + g.below(4000)]);
@@ -116,7 +152,16 @@ int main(int argc, char **argv) {
             // thorough: the full cross product
             if (mode == "fill" && !th && si != (int)((ci * 9 + ri + ce + ml + dc + vr::env_seed()) % 8)) continue;
             cfg c{COARSENINGS[ci], RELAX[ri], SOLVERS[si], n > 10 && ce == 1 ? 6u : ce, ml, (bool)dc};
-            if (mode == "degen") {
+            if (mode == "stack") {
+                // needs 2 <= OMP_NUM_THREADS <= 3 (the level-scheduled sweeps, laid out for >= 4 threads, do not support a smaller team)
+                if (si != (int)((ci * 9 + ri + ce + ml + dc) % 8)) continue;
+                std::vector<vr::digest> d; std::vector<int> cls;
+                for (int pat = 0; pat < 4; ++pat) { outcome o = run_nested(A, c, f, pat); d.push_back(dig(o)); cls.push_back(o.cls); }
+                std::ostringstream ds; ds << "["; for (size_t k = 0; k < d.size(); ++k) ds << (k ? "," : "") << "[" << d[k].lo() << "," << d[k].hi() << "]"; ds << "]";
+                vr::obj j; j.str("k", "fill").str("m", mats[mi].first).str("c", c.c).str("r", c.r).str("s", c.s).i("ce", c.ce).i("ml", std::min(c.ml, 1000u)).b("dc", c.dc).str("what", "stack");
+                j.raw("d", ds.str()).ints("cls", cls);
+                vr::emit(j.done());
+            } else if (mode == "degen") {
                 outcome o = run_once(A, c, f);
                 vr::obj j; j.str("k", "degen").str("m", mats[mi].first).str("c", c.c).str("r", c.r).str("s", c.s).i("ce", c.ce).i("ml", std::min(c.ml, 1000u)).b("dc", c.dc);
                 j.i("cls", o.cls).i("it", o.it).i("tru", o.tru).str("what", o.what);
